@@ -244,5 +244,5 @@ Proof. rewrite <- copy_set_bridge. apply copy_set_faithful. Qed.
 
 Theorem skeletons_ok :
   gen_c19_gridcell_reduce_skeleton_ok && gen_c19_grid_setstate_skeleton_ok
-  && gen_c19_dspace_setstate_skeleton_ok && gen_c19_aset_skeleton_ok = true.
+  && gen_c19_dspace_setstate_skeleton_ok && gen_c19_aset_skeleton_ok && gen_c19_cell_add_remove_skeleton_ok = true.
 Proof. vm_compute. reflexivity. Qed.
